@@ -13,6 +13,16 @@ impl Binder {
         }
         let cols = self.bind_table_columns(&insert.table_name, &insert.columns)?;
         let source = self.bind_query(*source)?.0;
+        let expected_column_num = self.egraph[cols].nodes[0].as_list().len();
+        let actual_column_num = self.schema(source).len();
+        if actual_column_num != expected_column_num {
+            return Err(ErrorKind::ColumnCountMismatch(
+                insert.table_name.to_string(),
+                expected_column_num,
+                actual_column_num,
+            )
+            .with_spanned(&insert.table_name));
+        }
         let id = self.egraph.add(Node::Insert([table, cols, source]));
         Ok(id)
     }
